@@ -176,7 +176,23 @@ func availabilityMonitor(prefix string) func(c *Ctx) []Violation {
 		switch av {
 		case model.No:
 			c.Hit("must_fail_missing")
-			if st.V.OK || st.V.Escaped {
+			// a user function that failed (by plan) before dig reached the
+			// missing dependency legitimately decides the outcome: the
+			// order in which independent dependencies are built is
+			// unspecified (§3.6-6), so only "did not succeed, invoked
+			// function did not run" is asserted then
+			userFailed := false
+			for _, e := range c.Run.Events(st) {
+				if e.Kind == u.EvExit && e.Outcome != u.BehOK {
+					userFailed = true
+				}
+			}
+			if userFailed {
+				c.Hit("must_fail_missing_but_a_function_failed_first")
+				if st.V.OK {
+					vs = append(vs, Violation{Rule: prefix + "/missing-required-dependency-not-reported", Detail: fmt.Sprintf("%s => ok although a required dependency in its closure has no visible constructor", st.Op)})
+				}
+			} else if st.V.OK || st.V.Escaped {
 				vs = append(vs, Violation{Rule: prefix + "/missing-required-dependency-not-reported", Detail: fmt.Sprintf("%s => %s although a required dependency in its closure has no visible constructor", st.Op, st.V.Class())})
 			} else if !st.V.DigErr || st.V.User != nil || st.V.RootPanic {
 				vs = append(vs, Violation{Rule: prefix + "/missing-dependency-wrong-error-class", Detail: fmt.Sprintf("%s => %s; expected a dig error", st.Op, st.V.Class())})
